@@ -1,3 +1,4 @@
+pub mod c15;
 pub mod c18;
 pub mod c19;
 pub mod registry;
